@@ -26,6 +26,22 @@ var lockRedeemABI = func() abi.ABI {
 	return a
 }()
 
+var erc20ABI = func() abi.ABI {
+	a, err := abi.JSON(strings.NewReader(contract.ERC20BasicABI))
+	if err != nil {
+		panic(err)
+	}
+	return a
+}()
+
+var lockRedeemERCABI = func() abi.ABI {
+	a, err := abi.JSON(strings.NewReader(contract.LockRedeemERCABI))
+	if err != nil {
+		panic(err)
+	}
+	return a
+}()
+
 func ethKey(name string) *ecdsa.PrivateKey {
 	k, err := ethcrypto.ToECDSA(secret("ethkey", name))
 	if err != nil {
@@ -36,18 +52,29 @@ func ethKey(name string) *ecdsa.PrivateKey {
 
 // EthTx builds the embedded, signed ethereum transaction of a lock or redeem request.
 // kind "lock": a call of lock() with value amt; "redeem": a call of redeem(amt).
+// "erclock": transfer(lock contract, amt) on the token contract; "ercredeem": redeem(amt, token) on the ERC20 lock contract.
 func EthTx(kind, owner string, amt, n int64) []byte {
 	var data []byte
 	var err error
 	value := big.NewInt(0)
-	if kind == "lock" {
+	to := LockRedeemContract
+	switch kind {
+	case "lock":
 		data, err = lockRedeemABI.Pack("lock")
 		value = big.NewInt(amt)
-	} else {
+	case "redeem":
 		data, err = lockRedeemABI.Pack("redeem", big.NewInt(amt))
+	case "erclock":
+		data, err = erc20ABI.Pack("transfer", ErcLockContract, big.NewInt(amt))
+		to = TokenContract
+	case "ercredeem":
+		data, err = lockRedeemERCABI.Pack("redeem", big.NewInt(amt), TokenContract)
+		to = ErcLockContract
+	default:
+		panic("unknown external transaction kind " + kind)
 	}
 	must(err)
-	tx := ethtypes.NewTransaction(uint64(n), LockRedeemContract, value, 300000, big.NewInt(1), data)
+	tx := ethtypes.NewTransaction(uint64(n), to, value, 300000, big.NewInt(1), data)
 	signed, err := ethtypes.SignTx(tx, ethtypes.NewEIP155Signer(big.NewInt(1)), ethKey(owner))
 	must(err)
 	raw, err := rlp.EncodeToBytes(signed)
@@ -81,16 +108,28 @@ func (g *Genesis) WitnessIndex(v string) int64 {
 func (g *Genesis) msgEth(t TxReq) (action.Msg, []string, bool) {
 	switch t.Kind {
 	case "ETH_LOCK":
+		if t.I("erc") != 0 {
+			raw := EthTx("erclock", t.S("owner"), t.I("amt"), t.I("n"))
+			return &aeth.ERC20Lock{Locker: g.addr(t.S("owner")), ETHTxn: raw}, []string{t.S("owner")}, true
+		}
 		raw := EthTx("lock", t.S("owner"), t.I("amt"), t.I("n"))
 		if b, ok := t.A["rawtx"].([]byte); ok {
 			raw = b
 		}
 		return &aeth.Lock{Locker: g.addr(t.S("owner")), ETHTxn: raw}, []string{t.S("owner")}, true
 	case "ETH_REDEEM":
+		if t.I("erc") != 0 {
+			raw := EthTx("ercredeem", t.S("owner"), t.I("amt"), t.I("n"))
+			return &aeth.ERC20Redeem{Owner: g.addr(t.S("owner")), To: ethcrypto.PubkeyToAddress(ethKey(t.S("owner")).PublicKey), ETHTxn: raw}, []string{t.S("owner")}, true
+		}
 		raw := EthTx("redeem", t.S("owner"), t.I("amt"), t.I("n"))
 		return &aeth.Redeem{Owner: g.addr(t.S("owner")), To: ethcrypto.PubkeyToAddress(ethKey(t.S("owner")).PublicKey), ETHTxn: raw}, []string{t.S("owner")}, true
 	case "ETH_REPORT":
-		raw := EthTx(t.S("tkind"), t.S("towner"), t.I("tamt"), t.I("tn"))
+		tk := t.S("tkind")
+		if t.I("erc") != 0 {
+			tk = "erc" + tk
+		}
+		raw := EthTx(tk, t.S("towner"), t.I("tamt"), t.I("tn"))
 		idx := t.I("idx")
 		if _, given := t.A["idx"]; !given {
 			idx = g.WitnessIndex(t.S("by"))
@@ -109,6 +148,8 @@ var extNames = func() map[string]string {
 	for _, x := range extPool {
 		kind := x.kind
 		m[Hex(EthTx(kind, x.owner, x.amt, x.n))] = ExtKey(kind, x.owner, x.amt, x.n)
+		// the same pool on the ERC20 side; the model name keeps the plain kind (a family uses one side only)
+		m[Hex(EthTx("erc"+kind, x.owner, x.amt, x.n))] = ExtKey(kind, x.owner, x.amt, x.n)
 	}
 	return m
 }()
@@ -134,6 +175,8 @@ var extByHash = func() map[string]string {
 	for _, x := range extPool {
 		h := TrackerName(EthTx(x.kind, x.owner, x.amt, x.n))
 		m[Hex(h[:])] = ExtKey(x.kind, x.owner, x.amt, x.n)
+		he := TrackerName(EthTx("erc"+x.kind, x.owner, x.amt, x.n))
+		m[Hex(he[:])] = ExtKey(x.kind, x.owner, x.amt, x.n)
 	}
 	return m
 }()
